@@ -396,6 +396,18 @@ def register(kernel):
            model="single_basis_KL ROps t q", model_name="Metrics.single_basis_KL", imports=["Bits", "Metrics"],
            tactic="intros; cbv [GEN single_basis_KL]; rewrite !sum_vmul_dot, dot_self_map; reflexivity")
 
+    # ------------------------------------------------------------------ C01 / C02: the partition function over a given space
+    kernel("C01", name="binary_partition", func="BinaryRBM.partition", inputs=[("space", "space", "LBV")], hole_types={"s": "LBV"},
+           atoms=[("self.effective_energy($s)", "(map (b_eff_energy ROps r) $s)", "V")],
+           coq_params=[("r", "(@brbm R)"), ("space", "list bits")], result=F, thm_params=[("r", "(@brbm R)"), ("space", "list bits")],
+           gen_args="r space", model="b_partition ROps r space", model_name="Rbm.b_partition",
+           tactic="intros; cbv [GEN b_partition vopp]; tie_vec_norm; rewrite !map_map; reflexivity", **bfile)
+    kernel("C02", name="purification_partition", func="PurificationRBM.partition", inputs=[("space", "space", "LBV")], hole_types={"s": "LBV"},
+           atoms=[("self.effective_energy($s)", "(map (p_eff_energy ROps r) $s)", "V")],
+           coq_params=[("r", "(@prbm R)"), ("space", "list bits")], result=F, thm_params=[("r", "(@prbm R)"), ("space", "list bits")],
+           gen_args="r space", model="p_partition ROps r space", model_name="Rbm.p_partition",
+           tactic="intros; cbv [GEN p_partition vopp]; tie_vec_norm; rewrite !map_map; reflexivity", **pfile)
+
 
 def register_corollaries(cor):
     """property-level facts stated over SEVERAL generated kernels at once (compiled with the combined generated file)"""
